@@ -315,6 +315,10 @@ class FnSplicer:
             self._let_chain_last(body_open, body_close)
         if 'bool-or-assign' in (spec.get('rewrites') or []):
             self._bool_or_assign(body_open, body_close)
+        if 'iter-rposition-to-helper' in (spec.get('rewrites') or []):
+            self._iter_rposition(body_open, body_close)
+        if 'drain-from-next-back-to-helper' in (spec.get('rewrites') or []):
+            self._drain_from_next_back(body_open, body_close)
         # --- body: nested fns, loops, closures ---------------------------------
         nested = {}  # name -> (start,kwi,end)
         excl = []
@@ -421,6 +425,38 @@ class FnSplicer:
                     self.segs.insert(pos, text, ctag or ltag + '/kw', order=order)
                     order += 1
 
+        # Rule 'labeled-block-to-loop': `'l: { BODY }` (a unit-valued labeled block, which Verus does not support)
+        # becomes `'l: loop <clauses> decreases 0int { BODY break 'l; }`: one pass through BODY, every `break 'l`
+        # keeps its meaning.  The clauses of the synthetic loop come from spec['labeled_blocks'][ordinal].
+        lblocks = []
+        i = body_open + 1
+        while i < body_close - 2:
+            if toks[i].kind == 'lifetime' and toks[i + 1].text == ':' and toks[i + 2].text == '{' and not excluded(i):
+                lblocks.append(i)
+            i += 1
+        lbspecs = spec.get('labeled_blocks') or {}
+        for k in lbspecs:
+            if int(k) >= len(lblocks):
+                raise ExtractError('lost anchor: labeled block #%s of %s (found %d)' % (k, tag, len(lblocks)))
+        for k, li in enumerate(lblocks):
+            lspec = lbspecs.get(k, lbspecs.get(str(k))) or {}
+            bopen = li + 2
+            bclose = match_close(toks, bopen)
+            # the block must be used as a statement-like unit block: last token before `}` is `;` or `}`
+            if toks[bclose - 1].text not in (';', '}'):
+                raise ExtractError('unsupported construct: labeled block with a value in %s' % tag)
+            ltag = '%s/lblock%d' % (tag, k)
+            pos = toks[bopen].start
+            self.segs.insert(pos, 'loop\n', ltag + '/labeled-block-to-loop', order=0)
+            order = 1
+            for kind in ('invariant_except_break', 'invariant', 'ensures'):
+                for text, ctag in _clauses(kind, lspec.get(kind), ltag, '        '):
+                    self.segs.insert(pos, text, ctag or ltag + '/kw', order=order)
+                    order += 1
+            self.segs.insert(pos, '        decreases 0int\n', ltag + '/kw', order=order)
+            self.segs.insert(toks[bclose].start, 'break %s;\n' % toks[li].text, ltag + '/labeled-block-to-loop', order=0)
+            self.counts['labeled-block-to-loop'] = self.counts.get('labeled-block-to-loop', 0) + 1
+
         cspecs = spec.get('closures') or {}
         for k, c in enumerate(closures):
             cspec = cspecs.get(k, cspecs.get(str(k)))
@@ -428,6 +464,73 @@ class FnSplicer:
         for k in cspecs:
             if int(k) >= len(closures):
                 raise ExtractError('lost anchor: closure #%s of %s (found %d closures)' % (k, tag, len(closures)))
+
+    def _iter_rposition(self, body_open, body_close):
+        """Rule 'iter-rposition-to-helper': `RECV.iter().rposition(P)` -> `verif_rposition(&RECV, P)`.
+        `Iterator::rposition` is a provided method of a trait vstd specifies externally, so no contract can be
+        attached to it; the helper `verif_rposition(s, p)` is `s.iter().rposition(p)` behind an assumed contract."""
+        toks = self.src.toks
+        i = body_open + 1
+        n = 0
+        while i < body_close - 6:
+            if [t.text for t in toks[i:i + 7]] == ['.', 'iter', '(', ')', '.', 'rposition', '(']:
+                # receiver: postfix chain ending at i-1
+                j = i - 1
+                while True:
+                    if toks[j].text in (')', ']'):
+                        k = j
+                        depth = 0
+                        while True:
+                            if toks[k].text in (')', ']', '}'):
+                                depth += 1
+                            elif toks[k].text in ('(', '[', '{'):
+                                depth -= 1
+                                if depth == 0:
+                                    break
+                            k -= 1
+                        j = k - 1
+                        if toks[j].kind == 'ident' or toks[j].text in (')', ']'):
+                            continue
+                        j += 1
+                        break
+                    elif toks[j].kind == 'ident':
+                        if toks[j - 1].text in ('.', '::'):
+                            j -= 2
+                            continue
+                        break
+                    else:
+                        raise ExtractError('unsupported construct: receiver of .iter().rposition() in %s' % self.name_path)
+                self.segs.insert(toks[j].start, 'verif_rposition(&', 'iter-rposition-to-helper/open', order=0)
+                self.segs.rewrite(toks[i].start, toks[i + 6].end, ', ', 'iter-rposition-to-helper')
+                self.counts['iter-rposition-to-helper'] = self.counts.get('iter-rposition-to-helper', 0) + 1
+                n += 1
+                i += 7
+                continue
+            i += 1
+        if n == 0:
+            raise ExtractError('lost anchor: no `.iter().rposition(` in %s' % self.name_path)
+
+    def _drain_from_next_back(self, body_open, body_close):
+        """Rule 'drain-from-next-back-to-helper': `RECV.drain(E..).next_back()` -> `verif_drain_from_next_back(RECV, E)`
+        where RECV is a plain identifier (a `&mut Vec`).  Verus cannot declare `std::vec::Drain` (its outlives
+        bounds); the helper is the same two calls behind an assumed contract."""
+        toks = self.src.toks
+        i = body_open + 1
+        n = 0
+        while i < body_close - 8:
+            if toks[i].kind == 'ident' and [t.text for t in toks[i + 1:i + 4]] == ['.', 'drain', '('] and toks[i - 1].text not in ('.', '::'):
+                close = match_close(toks, i + 3)
+                if toks[close - 1].text == '.' and toks[close - 2].text == '.' and [t.text for t in toks[close + 1:close + 5]] == ['.', 'next_back', '(', ')']:
+                    self.segs.insert(toks[i].start, 'verif_drain_from_next_back(', 'drain-from-next-back-to-helper/open', order=0)
+                    self.segs.rewrite(toks[i + 1].start, toks[i + 3].end, ', ', 'drain-from-next-back-to-helper')
+                    self.segs.rewrite(toks[close - 2].start, toks[close + 4].end, ')', 'drain-from-next-back-to-helper/close')
+                    self.counts['drain-from-next-back-to-helper'] = self.counts.get('drain-from-next-back-to-helper', 0) + 1
+                    n += 1
+                    i = close + 5
+                    continue
+            i += 1
+        if n == 0:
+            raise ExtractError('lost anchor: no `<ident>.drain(E..).next_back()` in %s' % self.name_path)
 
     def _ref_pattern_deref(self, body_open, body_close):
         """Rule 'ref-pattern-deref': `while let &PAT = EXPR {` / `if let &PAT = EXPR {` -> `... let PAT = *(EXPR) {`
@@ -639,11 +742,12 @@ class FnSplicer:
         when a closure captures a `&mut` parameter; both rewrites are the std definitions of the methods):
             RECV.map(|PAT| BODY)            -> match RECV { Some(PAT) => Some(BODY), None => None }
             RECV.unwrap_or_else(|| BODY)    -> match RECV { Some(verif_v) => verif_v, None => (BODY) }
+            RECV.and_then(|PAT| BODY)       -> match RECV { Some(PAT) => (BODY), None => None }
         The result only type-checks when RECV is an Option."""
         toks = self.src.toks
         text = self.src.text
         (p0, p1, b0, b1, is_block, has_ret) = c
-        meth = {'option-map-to-match': 'map', 'unwrap-or-else-to-match': 'unwrap_or_else'}[rule]
+        meth = {'option-map-to-match': 'map', 'unwrap-or-else-to-match': 'unwrap_or_else', 'and-then-to-match': 'and_then'}[rule]
         if not (toks[p0 - 1].text == '(' and toks[p0 - 2].text == meth and toks[p0 - 3].text == '.'):
             raise ExtractError('%s: rule %s expects `.%s(` before the closure' % (ctag, rule, meth))
         if toks[b1 + 1].text != ')':
@@ -672,10 +776,14 @@ class FnSplicer:
                 continue
             break
         recv_start = j + 1
-        self.segs.insert(toks[recv_start].start, 'match ', ctag + '/match', order=0)
+        self.segs.insert(toks[recv_start].start, 'match ', ctag + '/match', order=-1)
         if rule == 'option-map-to-match':
             pat = text[toks[p0 + 1].start:toks[p1 - 1].end] if p1 > p0 + 1 else '_'
             self.segs.rewrite(toks[dot].start, toks[p1].end, ' { Some(%s) => Some(' % pat, rule)
+            self.segs.rewrite(toks[b1 + 1].start, toks[b1 + 1].end, '), None => None }', rule)
+        elif rule == 'and-then-to-match':
+            pat = text[toks[p0 + 1].start:toks[p1 - 1].end] if p1 > p0 + 1 else '_'
+            self.segs.rewrite(toks[dot].start, toks[p1].end, ' { Some(%s) => (' % pat, rule)
             self.segs.rewrite(toks[b1 + 1].start, toks[b1 + 1].end, '), None => None }', rule)
         else:
             self.segs.rewrite(toks[dot].start, toks[p1].end, ' { Some(verif_v) => verif_v, None => (', rule)
@@ -820,6 +928,43 @@ def _inner_attr_edits(src, segs, lo, hi, counts):
             i += 1
 
 
+def _pub_fields(src, segs, kwi, end, counts, name):
+    """struct body: every named or tuple field without a visibility gets `pub` (specifications of one unit
+    live in one flat module; nothing executable changes)."""
+    toks = src.toks
+    b = kwi
+    while b < end and toks[b].text not in ('{', '('):
+        b += 1
+    if b >= end:
+        return
+    close = match_close(toks, b)
+    tuple_struct = toks[b].text == '('
+    i = b + 1
+    at_field_start = True
+    depth = 0
+    while i < close:
+        t = toks[i]
+        if at_field_start:
+            # skip attributes
+            while toks[i].text == '#' and toks[i + 1].text == '[':
+                i = match_close(toks, i + 1) + 1
+            if i >= close:
+                break
+            t = toks[i]
+            if t.text != 'pub':
+                segs.insert(t.start, 'pub ', name + '/field-vis', order=9)
+                counts['widen-visibility'] = counts.get('widen-visibility', 0) + 1
+            at_field_start = False
+            continue
+        if t.text in ('(', '[', '{', '<'):
+            depth += 1
+        elif t.text in (')', ']', '}', '>'):
+            depth -= 1
+        elif t.text == ',' and depth == 0:
+            at_field_start = True
+        i += 1
+
+
 class Extractor:
     def __init__(self, repo_root):
         self.repo = repo_root
@@ -856,6 +1001,8 @@ class Extractor:
         if kind in ('enum', 'struct'):
             _inner_attr_edits(src, segs, kwi, end, self.counts)
         spec = spec or {}
+        if kind == 'struct' and spec.get('pub_fields'):
+            _pub_fields(src, segs, kwi, end, self.counts, name)
         if spec.get('vis'):
             m = kwi
             while m > start and toks[m - 1].kind == 'ident' and toks[m - 1].text in MODIFIERS:
